@@ -28,6 +28,10 @@ def _copy_repo(dst):
 
 def apply_edit(root, case):
     """Apply case['edits'] = [(relpath, old, new)] ; return False if any does not apply exactly once."""
+    if case.get("transform"):
+        from .transforms import TRANSFORMS
+
+        return TRANSFORMS[case["transform"]](root) > 0
     for rel, old, new in case["edits"]:
         p = os.path.join(root, "functional_algorithms", rel)
         try:
@@ -65,6 +69,8 @@ def run_for_property(prop, jobs=16, verbose=True):
     from . import mutants
 
     cases = [c for c in mutants.CASES if c["prop"] == prop]
+    if os.environ.get("VERIF_SELFTEST_NO_TRANSFORMS") != "1":
+        cases += [dict(id=f"{prop}-neutral-{t}", prop=prop, kind="neutral", expect=None, edits=[], transform=t) for t in ("reformat", "rename_locals")]
     out = dict(mutants_total=0, mutants_killed=0, mutants_survived=0, mutants_skipped=0,
                neutral_edits_total=0, neutral_edits_silent=0, neutral_edits_alarmed=0, selftest_failures=[])
     if not cases:
